@@ -21,9 +21,9 @@ ASSUMPTIONS = ["model domain: numeric fields are plain ASCII digit/hex strings a
                "Unicode-aware strip/title) are detected by instrumentation and skipped for the correspondence (count in coverage.distribution)",
                "theorem side condition GoodRun: no header block announces both 'Transfer-Encoding: chunked' and a positive Content-Length (RFC 7230 3.3.3); "
                "the implementation is split-dependent on such messages - observed on this run and reported as 'both-framings-split-dependent' (not a violation: outside 'well-formed')",
-               "correctness against the writer (C07_written_stream_any_segmentation over Spec/HttpWriter.lean) covers all three framings (Content-Length, chunked, no body) and ordinary headers in any spelling "
-               "(the application sees the Title-Cased name and the value without surrounding white space); the framing header itself is written canonically (`Content-Length: n`, `Transfer-Encoding: chunked`) - "
-               "other spellings of it are covered by this harness's own grammar (oracle on this run's samples), extended to all splits by the segmentation theorem"]
+               "correctness against the writer (C07_written_stream_any_segmentation over Spec/HttpWriter.lean) covers all three framings (Content-Length, chunked, no body), every header - the framing header included - "
+               "in any spelling and the framing header at any position (the application sees Title-Cased names and values without surrounding white space); what the writer never produces is outside the theorem: "
+               "two framing headers in one message, a header block that is not ASCII, chunk extensions"]
 EXPLANATION = ("Lean theorems C07_* over the model of HttpResponse.parse + data_received loop: segmentation independence (feed (a++b) = feed a; feed b, lifted to any list of reads, any stream) and "
                "correctness for every segmentation of every stream written by the independent writer of Spec/HttpWriter.lean (the parser returns exactly the messages written and consumes exactly their bytes); "
                "differential tie on data_received")
@@ -172,16 +172,26 @@ def gen_written(rng, small=False):
     # ordinary headers in any spelling: (name as written, value as written incl. its padding)
     pool = [(n, b" " + v) for n, v in CANON_HDRS] + [tuple(x.split(b":", 1)) for x in HDRS]
     hs = rng.sample(pool, rng.randint(0, 1 if small else 4))
+    cut_at = rng.randint(0, len(hs))
+    before, after = hs[:cut_at], hs[cut_at:]  # the framing header goes between them
     maxb = 12 if small else 600
     t = rng.random()
-    head = ver + b" %d " % code + reason + b"\r\n" + b"".join(n + b":" + v + b"\r\n" for n, v in hs)
-    htok = ",".join(f"{hx(n)}={hx(v)}" for n, v in hs) or "."
-    hs = [(n.decode().strip().title().encode(), v.decode().strip().encode()) for n, v in hs]  # what the application must see
+
+    def lines(l):
+        return b"".join(n + b":" + v + b"\r\n" for n, v in l)
+
+    def htok(l):
+        return ",".join(f"{hx(n)}={hx(v)}" for n, v in l) or "."
+
+    def seen(l):
+        return [(n.decode().strip().title(), v.decode().strip()) for n, v in l]  # what the application must see
+    head = ver + b" %d " % code + reason + b"\r\n"
     if t < 0.4:
         body = rbody(rng, rng.choice([0, 1, 2, rng.randint(0, maxb)]))
         lt = b"%d" % len(body) if rng.random() < 0.8 else b"%04d" % len(body)
-        raw = head + b"Content-Length: " + lt + b"\r\n\r\n" + body
-        fr, fh, shape = "L:" + hx(lt), [(b"Content-Length", lt)], ("w-cl", len(body), len(hs))
+        fh = (rng.choice([b"Content-Length", b"content-length", b"CONTENT-LENGTH", b"Content-length "]), rng.choice([b" ", b"", b"  ", b"\t"]) + lt + rng.choice([b"", b" "]))
+        raw = head + lines(before) + lines([fh]) + lines(after) + b"\r\n" + body
+        fr, shape = "L:" + htok([fh]), ("w-cl", len(body), len(hs), cut_at)
     elif t < 0.8:
         chunks = []
         for _ in range(rng.randint(0, 2 if small else 5)):
@@ -189,15 +199,17 @@ def gen_written(rng, small=False):
             sz = rng.choice([b"%x", b"%X", b"%03x"]) % len(c)
             chunks.append((sz, c))
         body = b"".join(c for _, c in chunks)
-        raw = head + b"Transfer-Encoding: chunked\r\n\r\n" + b"".join(sz + b"\r\n" + c + b"\r\n" for sz, c in chunks) + b"0\r\n\r\n"
-        fr = "C:" + (",".join(f"{hx(sz)}={hx(c)}" for sz, c in chunks) or ".")
-        fh, shape = [(b"Transfer-Encoding", b"chunked")], ("w-chunked", tuple(len(c) for _, c in chunks), len(hs))
+        fh = (rng.choice([b"Transfer-Encoding", b"transfer-encoding", b"TRANSFER-ENCODING"]), rng.choice([b" chunked", b"chunked", b"  chunked "]))
+        raw = head + lines(before) + lines([fh]) + lines(after) + b"\r\n" + b"".join(sz + b"\r\n" + c + b"\r\n" for sz, c in chunks) + b"0\r\n\r\n"
+        fr = "C:" + htok([fh]) + ":" + (",".join(f"{hx(sz)}={hx(c)}" for sz, c in chunks) or ".")
+        shape = ("w-chunked", tuple(len(c) for _, c in chunks), len(hs), cut_at)
     else:
         body = b""
-        raw = head + b"\r\n"
-        fr, fh, shape = "N", [], ("w-bodyless", len(hs))
-    tok = ";".join([hx(ver), hx(b"%d" % code), hx(reason), htok, fr, hx(body)])
-    exp = (ver.split(b"/")[0].decode(), code, [(n.decode(), v.decode()) for n, v in hs + fh], body)
+        fh = None
+        raw = head + lines(before) + lines(after) + b"\r\n"
+        fr, shape = "N", ("w-bodyless", len(hs))
+    tok = ";".join([hx(ver), hx(b"%d" % code), hx(reason), htok(before), fr, htok(after), hx(body)])
+    exp = (ver.split(b"/")[0].decode(), code, seen(before) + (seen([fh]) if fh else []) + seen(after), body)
     return tok, raw, exp, shape
 
 
